@@ -48,6 +48,36 @@ entries -/
 theorem C20_sparse_dense_same (row : List Rat) (maxDist : Rat) (N : ℕ) :
     findClosestSparse (candidatesDense row maxDist) N = findClosestDense row maxDist N := rfl
 
+/-- ... and for every order in which a sparse format may yield the stored in-range entries: the
+result is again "the N nearest within the maximum distance", and it is the dense result up to
+order when no two in-range points are equidistant from the query point -/
+theorem C20_sparse_any_order (row : List Rat) (maxDist : Rat) (entries : List (Rat × ℕ)) (N : ℕ)
+    (h : entries.Perm (candidatesDense row maxDist)) :
+    (∃ sel rest : List (Rat × ℕ),
+      findClosestSparse entries N = sel.map (·.2) ∧
+      (sel ++ rest).Perm (candidatesDense row maxDist) ∧
+      sel.length = min N (candidatesDense row maxDist).length ∧
+      (∀ a ∈ sel, ∀ b ∈ rest, a.1 ≤ b.1)) ∧
+    ((entries.map (·.1)).Nodup →
+      (findClosestSparse entries N).Perm (findClosestDense row maxDist N)) := by
+  constructor
+  · obtain ⟨sel, rest, h1, h2, h3, h4⟩ := selectFrom_spec entries N
+    exact ⟨sel, rest, h1, h2.trans h, by rw [h3, h.length_eq], h4⟩
+  · exact fun hd => selectFrom_perm entries (candidatesDense row maxDist) h hd N
+
+/-- a space with a maximum distance stores exactly the pairs whose distance is at most that
+maximum, with their true distances (contract of the kd-tree, as a statement about the stored
+row): membership in the candidate list is `d ≤ max_dist` and the stored value is the row's -/
+theorem C20_sparse_contents (row : List Rat) (maxDist : Rat) (j : ℕ) (hj : j < row.length) :
+    ((row[j], j) ∈ candidatesDense row maxDist ↔ row[j] ≤ maxDist) ∧
+    (∀ d, (d, j) ∈ candidatesDense row maxDist → d = row[j]) := by
+  constructor
+  · rw [mem_candidatesDense]; simp [hj]
+  · intro d hd
+    have := (mem_candidatesDense row maxDist d j).1 hd
+    rw [List.getElem?_eq_getElem hj] at this
+    exact (Option.some.inj this.1).symm
+
 /-- pair sampling: sampled positions are mapped back to original point indices through the two
 index vectors; without replacement (no duplicates) the double remap is injective, so every stored
 entry is the distance of one well-defined (left, right) pair -/
